@@ -21,7 +21,7 @@ import (
 // struct name -> name of its mutex field ("" = the struct has no mutex)
 var sharedStructs = map[string]map[string]string{
 	"recv": {"ChannelMgr": "mu", "channel": "mu", "Receiver": "mu"},
-	"app":  {"IPRequestLimiter": "mux", "cmafIngesterMgr": "", "cmafIngester": "", "assetMgr": "", "asset": "", "RepData": ""},
+	"app":  {"IPRequestLimiter": "mux", "cmafIngesterMgr": "mu", "cmafIngester": "mu", "assetMgr": "", "asset": "", "RepData": "", "repEncData": "", "Server": ""},
 }
 
 // helpers that are only called with the write lock of their receiver's mutex held: their accesses count as write-locked,
@@ -348,6 +348,99 @@ func (g *gen) emitAccess() {
 			sep = ""
 		}
 		fmt.Fprintf(&sb, "  (%s, %d, %d)%s\n", leanStr(k), sections[k].r, sections[k].w, sep)
+	}
+	sb.WriteString("]\n\n")
+	// package-level variables: who mentions them, and whether as the target of an assignment
+	type gref struct {
+		pkg, name, typ, fn string
+		write             bool
+	}
+	var grefs []gref
+	gseen := map[string]bool{}
+	for _, short := range []string{"app", "recv", "patch", "scte35", "chunkparser", "drm", "cmaf"} {
+		p := g.pkgs[short]
+		if p == nil {
+			continue
+		}
+		for _, f := range p.Syntax {
+			fname := g.fset.Position(f.Pos()).Filename
+			if strings.HasSuffix(fname, "_test.go") || strings.HasSuffix(fname, "verif_export.go") {
+				continue
+			}
+			for _, d := range f.Decls {
+				fd, ok := d.(*ast.FuncDecl)
+				if !ok || fd.Body == nil {
+					continue
+				}
+				fn := fd.Name.Name
+				if fd.Recv != nil && len(fd.Recv.List) > 0 {
+					fn = strings.TrimPrefix(g.exprText(fd.Recv.List[0].Type), "*") + "." + fn
+				}
+				written := map[*ast.Ident]bool{}
+				ast.Inspect(fd.Body, func(n ast.Node) bool {
+					mark := func(e ast.Expr) {
+						for {
+							switch x := e.(type) {
+							case *ast.IndexExpr:
+								e = x.X
+								continue
+							case *ast.SelectorExpr:
+								e = x.X
+								continue
+							case *ast.StarExpr:
+								e = x.X
+								continue
+							case *ast.ParenExpr:
+								e = x.X
+								continue
+							}
+							break
+						}
+						if id, ok := e.(*ast.Ident); ok {
+							written[id] = true
+						}
+					}
+					switch x := n.(type) {
+					case *ast.AssignStmt:
+						for _, l := range x.Lhs {
+							mark(l)
+						}
+					case *ast.IncDecStmt:
+						mark(x.X)
+					}
+					return true
+				})
+				ast.Inspect(fd.Body, func(n ast.Node) bool {
+					id, ok := n.(*ast.Ident)
+					if !ok {
+						return true
+					}
+					v, ok := p.TypesInfo.Uses[id].(*types.Var)
+					if !ok || v.Pkg() != p.Types || v.Parent() != p.Types.Scope() {
+						return true
+					}
+					k := fmt.Sprintf("%s|%s|%s|%v", short, v.Name(), fn, written[id])
+					if !gseen[k] {
+						gseen[k] = true
+						grefs = append(grefs, gref{short, v.Name(), types.TypeString(v.Type(), func(*types.Package) string { return "" }), fn, written[id]})
+					}
+					return true
+				})
+			}
+		}
+	}
+	sort.Slice(grefs, func(i, j int) bool {
+		a, b := grefs[i], grefs[j]
+		return fmt.Sprint(a.pkg, a.name, a.fn, a.write) < fmt.Sprint(b.pkg, b.name, b.fn, b.write)
+	})
+	sb.WriteString("/-- package-level variables: package, name, type, function that mentions it, as assignment target -/\n")
+	sb.WriteString("def globalRefs : List (String × String × String × String × Bool) := [\n")
+	for i, r := range grefs {
+		sep := ","
+		if i == len(grefs)-1 {
+			sep = ""
+		}
+		fmt.Fprintf(&sb, "  (%s, %s, %s, %s, %v)%s\n", leanStr(r.pkg), leanStr(r.name), leanStr(r.typ), leanStr(r.fn), r.write, sep)
 	}
 	sb.WriteString("]\n\nend Gen\n")
 	g.files["Access.lean"] = sb.String()
